@@ -761,5 +761,1085 @@ theorem monitor08_model (ms : List Machine) (fp fb : F64) (t0 : Int) (rng : σ) 
   exact go08_model ρ (LL.modelTrace ρ ms fp fb t0 rng h) h 1 (Fw.init ρ ms fp fb t0 rng)
     (LL.machines_run (init_run ρ ms fp fb t0 rng)) (u64_init ρ ms fp fb t0 rng)
 
+/-! ## C09: `checkCall` on lists -/
+
+open C09 (dedup signallers responders deliveries checkCall)
+
+theorem dedup_fold_mem (l acc : List Nat) (a : Nat) :
+    a ∈ l.foldl (fun acc x => if acc.contains x then acc else acc ++ [x]) acc ↔ a ∈ acc ∨ a ∈ l := by
+  induction l generalizing acc with
+  | nil => simp
+  | cons x l ih =>
+    rw [List.foldl_cons, ih]
+    by_cases h : acc.contains x = true
+    · rw [if_pos h]
+      have hx : x ∈ acc := by simpa using h
+      constructor
+      · rintro (h1 | h1)
+        · exact Or.inl h1
+        · exact Or.inr (List.mem_cons_of_mem _ h1)
+      · rintro (h1 | h1)
+        · exact Or.inl h1
+        · rcases List.mem_cons.1 h1 with rfl | h2
+          · exact Or.inl hx
+          · exact Or.inr h2
+    · rw [if_neg h]
+      simp only [List.mem_append, List.mem_cons]
+      tauto
+
+theorem mem_dedup (l : List Nat) (a : Nat) : a ∈ dedup l ↔ a ∈ l := by
+  unfold dedup
+  rw [dedup_fold_mem]
+  simp
+
+theorem dedup_fold_nodup (l acc : List Nat) (h : acc.Nodup) :
+    (l.foldl (fun acc x => if acc.contains x then acc else acc ++ [x]) acc).Nodup := by
+  induction l generalizing acc with
+  | nil => exact h
+  | cons x l ih =>
+    rw [List.foldl_cons]
+    apply ih
+    by_cases hx : acc.contains x = true
+    · rw [if_pos hx]; exact h
+    · rw [if_neg hx]
+      have hx' : x ∉ acc := by simpa using hx
+      rw [List.nodup_append]
+      refine ⟨h, List.nodup_singleton x, ?_⟩
+      intro a ha b hb
+      rw [List.mem_singleton] at hb
+      subst hb
+      exact fun hab => hx' (hab ▸ ha)
+
+theorem dedup_nodup (l : List Nat) : (dedup l).Nodup := dedup_fold_nodup l [] List.nodup_nil
+
+/-- a duplicate-free list with two entries holds two distinct values -/
+theorem two_distinct (k : List Nat) (hk : k.Nodup) (h2 : k.length ≥ 2) : ∃ a ∈ k, ∃ b ∈ k, a ≠ b := by
+  match k, hk, h2 with
+  | a :: b :: r, hk, _ =>
+    rw [List.nodup_cons] at hk
+    exact ⟨a, by simp, b, by simp, fun hab => hk.1 (by simp [hab])⟩
+
+/-- the part of `C09.checkCall` after the signallers have been counted -/
+def checkBody (n : Nat) (many : Bool) (k resp : List Nat) (log : List LogEntry) (liveAtEnd : Nat → Bool) :
+    Option String :=
+  let ms := List.range n
+  match ms.find? (fun i => deliveries log i > 1) with
+  | some i => some s!"machine {i} received more than one Signal"
+  | none =>
+  if many then
+    match ms.find? (fun i => liveAtEnd i && deliveries log i != 1) with
+    | some i => some s!"several signallers but live machine {i} received {deliveries log i} Signals"
+    | none => none
+  else match k with
+  | [] =>
+    match ms.find? (fun i => deliveries log i != 0) with
+    | some i => some s!"no signaller but machine {i} received a Signal"
+    | none => none
+  | x :: _ =>
+    match ms.find? (fun i => i != x && liveAtEnd i && deliveries log i != 1) with
+    | some i => some s!"lone signaller {x} but live machine {i} received {deliveries log i} Signals"
+    | none =>
+      let answered := resp.any (fun y => y != x)
+      if answered then
+        if liveAtEnd x && deliveries log x != 1 then some s!"lone signaller {x} was answered but received {deliveries log x} Signals" else none
+      else if deliveries log x != 0 then some s!"lone signaller {x} received its own Signal (signalled {(signallers log).length} distinct, not answered)"
+      else none
+
+/-- the list of signallers the monitor works with: those of this call and the one carried over -/
+def kOf (pending : Option SignalTarget) (log : List LogEntry) : List Nat :=
+  match pending with
+  | some (.allExcept x) => dedup (signallers log ++ [x])
+  | _ => signallers log
+
+theorem checkCall_eq (n : Nat) (pending : Option SignalTarget) (log : List LogEntry) (live : Nat → Bool) :
+    checkCall n pending log live =
+      checkBody n (pending == some .all || decide ((kOf pending log).length ≥ 2)) (kOf pending log) (responders log) log live := by
+  cases pending with
+  | none => rfl
+  | some p => cases p <;> rfl
+
+theorem checkBody_none (n : Nat) (many : Bool) (k resp : List Nat) (log : List LogEntry) (live : Nat → Bool)
+    (hle : ∀ i, deliveries log i ≤ 1)
+    (hmany : many = true → ∀ i, i < n → live i = true → deliveries log i = 1)
+    (hnone : many = false → k = [] → ∀ i, i < n → deliveries log i = 0)
+    (hlone : ∀ x r, many = false → k = x :: r →
+      (∀ i, i < n → i ≠ x → live i = true → deliveries log i = 1) ∧
+      ((∃ y ∈ resp, y ≠ x) → live x = true → deliveries log x = 1) ∧
+      ((¬ ∃ y ∈ resp, y ≠ x) → deliveries log x = 0)) :
+    checkBody n many k resp log live = none := by
+  unfold checkBody
+  simp only []
+  have e1 : (List.range n).find? (fun i => decide (deliveries log i > 1)) = none := by
+    rw [List.find?_eq_none]
+    intro i _
+    have := hle i
+    simp only [decide_eq_true_eq]; omega
+  rw [e1]
+  simp only []
+  cases hm : many with
+  | true =>
+    simp only [if_true]
+    have e2 : (List.range n).find? (fun i => live i && deliveries log i != 1) = none := by
+      rw [List.find?_eq_none]
+      intro i hi
+      rw [List.mem_range] at hi
+      cases hl : live i with
+      | false => simp
+      | true => simp [hmany hm i hi hl]
+    rw [e2]
+  | false =>
+    simp only [Bool.false_eq_true, if_false]
+    cases hk : k with
+    | nil =>
+      simp only []
+      have e3 : (List.range n).find? (fun i => deliveries log i != 0) = none := by
+        rw [List.find?_eq_none]
+        intro i hi
+        rw [List.mem_range] at hi
+        simp [hnone hm hk i hi]
+      rw [e3]
+    | cons x r =>
+      simp only []
+      obtain ⟨h1, h2, h3⟩ := hlone x r hm hk
+      have e4 : (List.range n).find? (fun i => i != x && live i && deliveries log i != 1) = none := by
+        rw [List.find?_eq_none]
+        intro i hi
+        rw [List.mem_range] at hi
+        by_cases hix : i = x
+        · simp [hix]
+        · cases hl : live i with
+          | false => simp
+          | true => simp [h1 i hi hix hl]
+      rw [e4]
+      simp only []
+      by_cases ha : ∃ y ∈ resp, y ≠ x
+      · have hany : resp.any (fun y => y != x) = true := by
+          rw [List.any_eq_true]
+          obtain ⟨y, hy, hyx⟩ := ha
+          exact ⟨y, hy, by simpa using hyx⟩
+        rw [hany]
+        simp only [if_true]
+        cases hl : live x with
+        | false => simp
+        | true => simp [h2 ha hl]
+      · have hany : resp.any (fun y => y != x) = false := by
+          rw [Bool.eq_false_iff]
+          intro h
+          rw [List.any_eq_true] at h
+          obtain ⟨y, hy, hyx⟩ := h
+          exact ha ⟨y, hy, by simpa using hyx⟩
+        rw [hany]
+        simp [h3 ha]
+
+/-! ## C09: whose entries a transition logs -/
+
+/-- entries that are neither deliveries nor sampled targets -/
+def inert : LogEntry → Bool
+  | .trans .. => false
+  | .sampled .. => false
+  | _ => true
+
+/-- `t` extends the log of `s` (newest first) by inert entries; the number of machines stays -/
+def QI (s t : Fw σ) : Prop :=
+  t.rt.length = s.rt.length ∧ ∃ l : List LogEntry, t.log = l ++ s.log ∧ ∀ e ∈ l, inert e = true
+
+theorem QI.refl (s : Fw σ) : QI s s := ⟨rfl, [], rfl, by simp⟩
+
+theorem QI.trans {s t u : Fw σ} (h₁ : QI s t) (h₂ : QI t u) : QI s u := by
+  obtain ⟨n1, l1, e1, q1⟩ := h₁
+  obtain ⟨n2, l2, e2, q2⟩ := h₂
+  refine ⟨n2.trans n1, l2 ++ l1, by rw [e2, e1, List.append_assoc], fun e he => ?_⟩
+  rcases List.mem_append.1 he with h | h
+  · exact q2 e h
+  · exact q1 e h
+
+theorem QI.same {s t : Fw σ} (hl : t.log = s.log) (hn : t.rt.length = s.rt.length) : QI s t :=
+  ⟨hn, [], by simp [hl], by simp⟩
+
+theorem QI.withFault (s : Fw σ) (f : Fault) : QI s (s.withFault f) := QI.same (by simp) (by simp)
+
+theorem QI.modRt (s : Fw σ) (j : Nat) (g : Runtime → Runtime) : QI s (s.modRt j g) := QI.same (by simp) (by simp)
+
+theorem QI.push (s : Fw σ) (e : LogEntry) (he : inert e = true) : QI s (s.push e) :=
+  ⟨rfl, [e], rfl, by simpa using he⟩
+
+theorem QI.ofQ {s t : Fw σ} (h : LL.Q s t) : QI s t := by
+  obtain ⟨c, e, g, r, _⟩ := h
+  refine ⟨by rw [r], c.reverse, e, fun x hx => ?_⟩
+  obtain ⟨b, rfl⟩ := g x (List.mem_reverse.1 hx)
+  rfl
+
+theorem qi_enterState (mi : Nat) (m : Machine) (cur next : Nat) (s : Fw σ) : QI s (enterState ρ mi m cur next s) := by
+  unfold enterState
+  split
+  · simp only
+    have h1 : QI s (s.modRt mi (fun r => { r with currentState := next })) := QI.modRt s mi _
+    split
+    · exact h1.trans (QI.withFault _ _)
+    · split
+      · next a _ =>
+        exact ((h1.trans (QI.ofQ (LL.q_sampleLimit ρ a _))).trans (QI.modRt _ mi _)).trans (QI.push _ _ rfl)
+      · exact (h1.trans (QI.modRt _ mi _)).trans (QI.push _ _ rfl)
+  · exact QI.refl s
+
+theorem qi_storeCounterA (mi oldA newA : Nat) (s : Fw σ) : QI s (storeCounterA mi oldA newA s).1 := by
+  unfold storeCounterA; simp only
+  split
+  · exact (QI.modRt s mi _).trans (QI.modRt _ mi _)
+  · exact QI.modRt s mi _
+
+theorem qi_storeCounterB (mi oldB newB : Nat) (s : Fw σ) : QI s (storeCounterB mi oldB newB s).1 := by
+  unfold storeCounterB; simp only
+  split
+  · exact (QI.modRt s mi _).trans (QI.modRt _ mi _)
+  · exact QI.modRt s mi _
+
+theorem qi_applyCounterA (mi : Nat) (c : Option Counter) (oldA oldB : Nat) (s : Fw σ) :
+    QI s (applyCounterA ρ mi c oldA oldB s).1 := by
+  unfold applyCounterA
+  cases c with
+  | none => exact QI.refl s
+  | some c => exact (QI.ofQ (LL.q_counterOperand ρ c oldB s)).trans (qi_storeCounterA mi _ _ _)
+
+theorem qi_applyCounterB (mi : Nat) (c : Option Counter) (oldA oldB : Nat) (s : Fw σ) :
+    QI s (applyCounterB ρ mi c oldA oldB s).1 := by
+  unfold applyCounterB
+  cases c with
+  | none => exact QI.refl s
+  | some c => exact (QI.ofQ (LL.q_counterOperand ρ c oldA s)).trans (qi_storeCounterB mi _ _ _)
+
+theorem qi_scheduleAction (mi next : Nat) (s : Fw σ) : QI s (scheduleAction ρ mi next s) := by
+  unfold scheduleAction
+  cases hm : s.machines[mi]? with
+  | none => exact QI.withFault s _
+  | some m =>
+    simp only []
+    cases hst : m.states[next]? with
+    | none => exact QI.withFault s _
+    | some st =>
+      simp only []
+      split
+      · exact QI.withFault s _
+      · cases hact : st.action with
+        | none => exact QI.same rfl rfl
+        | some act =>
+          cases act with
+          | cancel t => exact QI.same rfl rfl
+          | sendPadding b rp tmo lim =>
+            simp only
+            exact (QI.ofQ (LL.q_sampleTimeout ρ _ s)).trans (QI.same rfl rfl)
+          | blockOutgoing b rp tmo du lim =>
+            simp only
+            exact (QI.ofQ ((LL.q_sampleTimeout ρ _ s).trans (LL.q_sampleDuration ρ _ _))).trans (QI.same rfl rfl)
+          | updateTimer rp du lim =>
+            simp only
+            exact (QI.ofQ (LL.q_sampleDuration ρ _ s)).trans (QI.same rfl rfl)
+
+/-- what a transition of machine `j` on the event numbered `evn` may log: deliveries to `j` of that
+    event or of CounterZero, and targets sampled for `j` on one of these two events -/
+def Own (j evn : Nat) : LogEntry → Prop
+  | .trans m e _ => m = j ∧ (e = evn ∨ e = Gen.EV_CounterZero)
+  | .sampled m e _ => m = j ∧ (e = evn ∨ e = Gen.EV_CounterZero)
+  | _ => True
+
+theorem Own.ofInert {j evn : Nat} {e : LogEntry} (h : inert e = true) : Own j evn e := by
+  cases e <;> trivial
+
+theorem Own.ofCZ {j evn : Nat} {e : LogEntry} (h : Own j Gen.EV_CounterZero e) : Own j evn e := by
+  cases e with
+  | trans m e' st => exact ⟨h.1, Or.inr (h.2.elim id id)⟩
+  | sampled m e' nx => exact ⟨h.1, Or.inr (h.2.elim id id)⟩
+  | _ => trivial
+
+/-- `t` extends the log of `s` (newest first) by entries of machine `j` for the event `evn` -/
+def O (j evn : Nat) (s t : Fw σ) : Prop :=
+  t.rt.length = s.rt.length ∧ ∃ l : List LogEntry, t.log = l ++ s.log ∧ ∀ e ∈ l, Own j evn e
+
+theorem O.refl (j evn : Nat) (s : Fw σ) : O j evn s s := ⟨rfl, [], rfl, by simp⟩
+
+theorem O.trans {j evn : Nat} {s t u : Fw σ} (h₁ : O j evn s t) (h₂ : O j evn t u) : O j evn s u := by
+  obtain ⟨n1, l1, e1, q1⟩ := h₁
+  obtain ⟨n2, l2, e2, q2⟩ := h₂
+  refine ⟨n2.trans n1, l2 ++ l1, by rw [e2, e1, List.append_assoc], fun e he => ?_⟩
+  rcases List.mem_append.1 he with h | h
+  · exact q2 e h
+  · exact q1 e h
+
+theorem QI.toO {j evn : Nat} {s t : Fw σ} (h : QI s t) : O j evn s t := by
+  obtain ⟨n, l, e, q⟩ := h
+  exact ⟨n, l, e, fun x hx => Own.ofInert (q x hx)⟩
+
+theorem O.ofCZ {j evn : Nat} {s t : Fw σ} (h : O j Gen.EV_CounterZero s t) : O j evn s t := by
+  obtain ⟨n, l, e, q⟩ := h
+  exact ⟨n, l, e, fun x hx => (q x hx).ofCZ⟩
+
+theorem O.push {j evn : Nat} (s : Fw σ) (e : LogEntry) (he : Own j evn e) : O j evn s (s.push e) :=
+  ⟨rfl, [e], rfl, by simpa using he⟩
+
+theorem o_main (mi : Nat) (fuel : Nat) :
+    (∀ (ev : Event) (s : Fw σ), O mi ev.toNat s (transition ρ fuel mi ev s).1) ∧
+    (∀ (s : Fw σ), O mi Gen.EV_CounterZero s (updateCounter ρ fuel mi s).1) := by
+  induction fuel with
+  | zero =>
+    refine ⟨fun ev s => ?_, fun s => ?_⟩
+    · rw [transition]; exact (QI.withFault _ _).toO
+    · rw [updateCounter]; exact (QI.withFault _ _).toO
+  | succ n ih =>
+    obtain ⟨ihT, ihU⟩ := ih
+    refine ⟨fun ev s => ?_, fun s => ?_⟩
+    · rw [transition]
+      cases hr : s.rt[mi]? with
+      | none => exact (QI.withFault _ _).toO
+      | some r =>
+      cases hm : s.machines[mi]? with
+      | none => exact (QI.withFault _ _).toO
+      | some m =>
+      simp only []
+      have h0 : O mi ev.toNat s (s.push (.trans mi ev.toNat r.currentState)) := O.push _ _ ⟨rfl, Or.inl rfl⟩
+      generalize s.push (.trans mi ev.toNat r.currentState) = s' at h0 ⊢
+      split
+      · exact h0
+      · cases hst : m.states[r.currentState]? with
+        | none => exact h0.trans (QI.withFault _ _).toO
+        | some st =>
+        simp only []
+        cases htr : st.transitions[ev.toNat]? with
+        | none => exact h0.trans (QI.withFault _ _).toO
+        | some ov =>
+        cases ov with
+        | none => exact h0
+        | some vec =>
+        simp only []
+        have q1 : O mi ev.toNat s (({ s' with rng := (ρ.u s'.rng).2 }).push (.draw (ρ.u s'.rng).1)) :=
+          h0.trans ⟨rfl, [.draw _], rfl, by simp [Own]⟩
+        generalize (({ s' with rng := (ρ.u s'.rng).2 }).push (.draw (ρ.u s'.rng).1)) = s1 at q1 ⊢
+        split
+        · exact q1
+        · next next _ =>
+          have q2 : O mi ev.toNat s (s1.push (.sampled mi ev.toNat next)) := q1.trans (O.push _ _ ⟨rfl, Or.inl rfl⟩)
+          generalize s1.push (.sampled mi ev.toNat next) = s2 at q2 ⊢
+          split
+          · exact q2.trans (QI.modRt _ _ _).toO
+          · split
+            · exact q2.trans (QI.same rfl rfl).toO
+            · have q3 := q2.trans (qi_enterState ρ mi m r.currentState next s2).toO
+              generalize enterState ρ mi m r.currentState next s2 = s3 at q3 ⊢
+              cases hr3 : s3.rt[mi]? with
+              | none => simp only []; exact q3.trans (QI.withFault _ _).toO
+              | some r1 =>
+              simp only []
+              cases hb : belowActionLimits s3.g r1 m with
+              | none => simp only []; exact q3.trans (QI.withFault _ _).toO
+              | some below =>
+              simp only []
+              have q4 := q3.trans (ihU s3).ofCZ
+              have q5 : O mi ev.toNat s (if ((updateCounter ρ n mi s3).2.1 && below) = true
+                  then scheduleAction ρ mi next (updateCounter ρ n mi s3).1 else (updateCounter ρ n mi s3).1) := by
+                split
+                · exact q4.trans (qi_scheduleAction ρ mi next _).toO
+                · exact q4
+              generalize (if ((updateCounter ρ n mi s3).2.1 && below) = true
+                  then scheduleAction ρ mi next (updateCounter ρ n mi s3).1 else (updateCounter ρ n mi s3).1) = s5 at q5 ⊢
+              cases hr5 : s5.rt[mi]? with
+              | none => simp only []; exact q5.trans (QI.withFault _ _).toO
+              | some r2 => simp only []; exact q5
+    · rw [updateCounter]
+      cases hr : s.rt[mi]? with
+      | none => exact (QI.withFault _ _).toO
+      | some r =>
+      cases hm : s.machines[mi]? with
+      | none => exact (QI.withFault _ _).toO
+      | some m =>
+      simp only []
+      cases hst : m.states[r.currentState]? with
+      | none => exact (QI.withFault _ _).toO
+      | some st =>
+      simp only []
+      have hA := qi_applyCounterA ρ mi st.counterA r.counterA r.counterB s
+      generalize applyCounterA ρ mi st.counterA r.counterA r.counterB s = ra at hA ⊢
+      have hB := qi_applyCounterB ρ mi st.counterB r.counterA r.counterB ra.1
+      generalize applyCounterB ρ mi st.counterB r.counterA r.counterB ra.1 = rb at hB ⊢
+      have h2 : O mi Gen.EV_CounterZero s
+          (rb.1.push (.counter mi r.counterA (counterAOf rb.1 mi) r.counterB (counterBOf rb.1 mi))) :=
+        ((hA.trans hB).trans (QI.push _ _ rfl)).toO
+      split
+      · have hT := h2.trans (ihT .counterZero _)
+        split
+        · exact hT.trans (QI.withFault _ _).toO
+        · exact hT
+      · exact h2
+
+theorem o_transition (j : Nat) (ev : Event) (s : Fw σ) : O j ev.toNat s (transition ρ FUEL j ev s).1 :=
+  (o_main ρ j FUEL).1 ev s
+
+/-- a transition for a machine without a runtime or without a description logs nothing -/
+theorem transition_absent (fuel j : Nat) (ev : Event) (s : Fw σ) (h : s.rt[j]? = none ∨ s.machines[j]? = none) :
+    (transition ρ fuel j ev s).1.log = s.log := by
+  cases fuel with
+  | zero => rw [transition]; simp
+  | succ n =>
+    rw [transition]
+    rcases h with h | h
+    · rw [h]; simp
+    · rw [h]
+      cases s.rt[j]? <;> simp
+
+/-! ## C09: the three parts of a call's log -/
+
+open C09 (sigStep firstRound afterFirst eventsDone)
+
+theorem signal_toNat : Event.signal.toNat = Gen.EV_Signal := rfl
+
+/-- `t` extends the log of `s` by a segment in which every delivery goes to an existing machine and
+    every target sampled on the Signal event is accompanied by a Signal delivery -/
+def P1 (s t : Fw σ) : Prop :=
+  t.rt.length = s.rt.length ∧ ∃ l : List LogEntry, t.log = l ++ s.log ∧
+    (∀ m ev st, LogEntry.trans m ev st ∈ l → m < s.rt.length) ∧
+    (∀ m nx, LogEntry.sampled m Gen.EV_Signal nx ∈ l → ∃ m' st, LogEntry.trans m' Gen.EV_Signal st ∈ l)
+
+theorem P1.refl (s : Fw σ) : P1 s s := ⟨rfl, [], rfl, by simp, by simp⟩
+
+theorem P1.trans {s t u : Fw σ} (h₁ : P1 s t) (h₂ : P1 t u) : P1 s u := by
+  obtain ⟨n1, l1, e1, a1, b1⟩ := h₁
+  obtain ⟨n2, l2, e2, a2, b2⟩ := h₂
+  refine ⟨n2.trans n1, l2 ++ l1, by rw [e2, e1, List.append_assoc], fun m ev st h => ?_, fun m nx h => ?_⟩
+  · rcases List.mem_append.1 h with h | h
+    · rw [← n1]; exact a2 m ev st h
+    · exact a1 m ev st h
+  · rcases List.mem_append.1 h with h | h
+    · obtain ⟨m', st, hm⟩ := b2 m nx h
+      exact ⟨m', st, List.mem_append_left _ hm⟩
+    · obtain ⟨m', st, hm⟩ := b1 m nx h
+      exact ⟨m', st, List.mem_append_right _ hm⟩
+
+theorem QI.toP1 {s t : Fw σ} (h : QI s t) : P1 s t := by
+  obtain ⟨n, l, e, q⟩ := h
+  refine ⟨n, l, e, fun m ev st hm => ?_, fun m nx hm => ?_⟩
+  · have := q _ hm; cases this
+  · have := q _ hm; cases this
+
+theorem p1_transition (j : Nat) (ev : Event) (s : Fw σ) : P1 s (transition ρ FUEL j ev s).1 := by
+  obtain ⟨hn, l, hl, hown⟩ := o_transition ρ j ev s
+  cases hr : s.rt[j]? with
+  | none => exact ⟨hn, [], by rw [transition_absent ρ FUEL j ev s (Or.inl hr)]; rfl, by simp, by simp⟩
+  | some r =>
+  cases hm : s.machines[j]? with
+  | none => exact ⟨hn, [], by rw [transition_absent ρ FUEL j ev s (Or.inr hm)]; rfl, by simp, by simp⟩
+  | some m =>
+    have hj : j < s.rt.length := by
+      rcases Nat.lt_or_ge j s.rt.length with h | h
+      · exact h
+      · rw [List.getElem?_eq_none h] at hr; cases hr
+    refine ⟨hn, l, hl, fun m' e' st hmem => ?_, fun m' nx hmem => ?_⟩
+    · have := hown _ hmem
+      rw [this.1]; exact hj
+    · have hO := hown _ hmem
+      have hev : ev.toNat = Gen.EV_Signal := by
+        rcases hO.2 with h | h
+        · exact h.symm
+        · exact absurd h (by decide)
+      obtain ⟨l', e', hmem'⟩ := transition_logs_own_entry ρ 7 j ev s r m hr hm
+      rw [← FUEL_succ] at e'
+      have hll : l' = l := List.append_cancel_right (e'.symm.trans hl)
+      rw [hll, hev] at hmem'
+      exact ⟨j, r.currentState, hmem'⟩
+
+theorem p1_decrement (j : Nat) (s : Fw σ) : P1 s (decrementLimit ρ j s) := by
+  unfold decrementLimit
+  cases hr : s.rt[j]? with
+  | none => exact (QI.withFault _ _).toP1
+  | some r =>
+  cases hm : s.machines[j]? with
+  | none => exact (QI.withFault _ _).toP1
+  | some m =>
+  simp only []
+  generalize (if r.stateLimit > 0 then r.stateLimit - 1 else r.stateLimit) = lim
+  have h1 : P1 s ((s.modRt j (fun r' => { r' with stateLimit := lim })).push (.limit j lim true)) :=
+    ((QI.modRt s j _).trans (QI.push _ _ rfl)).toP1
+  generalize (s.modRt j (fun r' => { r' with stateLimit := lim })).push (.limit j lim true) = s1 at h1 ⊢
+  cases hst : m.states[r.currentState]? with
+  | none => exact h1.trans (QI.withFault _ _).toP1
+  | some st =>
+  simp only []
+  cases hact : st.action with
+  | none => exact h1
+  | some a =>
+    simp only []
+    split
+    · split
+      · exact h1.trans (QI.withFault _ _).toP1
+      · exact (h1.trans (QI.same (t := { s1 with actions := s1.actions.set j none }) rfl rfl).toP1).trans
+          (p1_transition ρ j .limitReached _)
+    · exact h1
+
+theorem walkP1 : WalkEv ρ (P1 (σ := σ)) where
+  refl := P1.refl
+  trans := P1.trans
+  transition j ev s _ := p1_transition ρ j ev s
+  decrement j s _ := p1_decrement ρ j s
+  fault s f := (QI.withFault s f).toP1
+  signal _ _ := (QI.same rfl rfl).toP1
+  setG _ _ := (QI.same rfl rfl).toP1
+  acct s j f _ := (QI.modRt s j f).toP1
+
+theorem p1_eventsDone (es : List TEvent) (t : Int) (s : Fw σ) : P1 s (eventsDone ρ es t s) := by
+  unfold eventsDone
+  have W := walkP1 ρ (σ := σ)
+  have h0 : P1 s (s.callStart t) :=
+    (QI.same (s := s) (t := s.callStart t) rfl (by simp [Fw.callStart])).toP1
+  exact h0.trans (W.toWalkCore.foldl _ (fun a e => W.processEvent e a) es _)
+
+/-- **Part 1.** The reported events of a call sample no target on the Signal event: every
+    transition to the signal pseudo-state recorded there counts as a signaller for the monitor. -/
+theorem events_noSignalEv (es : List TEvent) (t : Int) (s : Fw σ) (l1 : List LogEntry)
+    (hl : (eventsDone ρ es t s).log = l1 ++ s.log) (m nx : Nat) : LogEntry.sampled m Gen.EV_Signal nx ∉ l1 := by
+  intro hmem
+  obtain ⟨_, l, e, _, hb⟩ := p1_eventsDone ρ es t s
+  have hll : l = l1 := List.append_cancel_right (e.symm.trans hl)
+  subst hll
+  obtain ⟨m', st, hm'⟩ := hb m nx hmem
+  have h := C09.sig_eventsDone ρ es t s m'
+  unfold sigOf at h
+  rw [e, wsum_append] at h
+  have h1 := wsum_mem_le (μSig m') _ l hm'
+  have h2 : μSig m' (.trans m' Gen.EV_Signal st) = 1 := by simp [μSig]
+  omega
+
+/-- every delivery logged by a call goes to an existing machine -/
+theorem call_trans_lt (es : List TEvent) (t : Int) (s : Fw σ) (l : List LogEntry)
+    (hl : (triggerEvents ρ es t s).log = l ++ s.log) (m ev st : Nat) (hmem : LogEntry.trans m ev st ∈ l) :
+    m < s.rt.length := by
+  have W := walkP1 ρ (σ := σ)
+  have h := (p1_eventsDone ρ es t s).trans (W.toWalkCore.signalRound (eventsDone ρ es t s))
+  rw [← C09.triggerEvents_eq] at h
+  obtain ⟨_, l', e, ha, _⟩ := h
+  have hll : l' = l := List.append_cancel_right (e.symm.trans hl)
+  subst hll
+  exact ha m ev st hmem
+
+/-- the deliveries of a round to the machines of a list: every entry belongs to one of them -/
+theorem fold_signal_own (l : List Nat) (s : Fw σ) :
+    ∃ seg, (l.foldl (fun s mi => (transition ρ FUEL mi .signal s).1) s).log = seg ++ s.log ∧
+      ∀ e ∈ seg, ∃ j ∈ l, Own j Gen.EV_Signal e := by
+  induction l generalizing s with
+  | nil => exact ⟨[], rfl, by simp⟩
+  | cons a l ih =>
+    simp only [List.foldl_cons]
+    obtain ⟨_, l0, e0, o0⟩ := o_transition ρ a .signal s
+    obtain ⟨seg, e1, o1⟩ := ih (transition ρ FUEL a .signal s).1
+    refine ⟨seg ++ l0, by rw [e1, e0, List.append_assoc], fun e he => ?_⟩
+    rcases List.mem_append.1 he with h | h
+    · obtain ⟨j, hj, hO⟩ := o1 e h
+      exact ⟨j, List.mem_cons_of_mem _ hj, hO⟩
+    · exact ⟨a, by simp, o0 e h⟩
+
+/-- **Parts 2 and 3.** With a lone signaller `x`, the delivery round logs first the entries of the
+    machines other than `x` (first round) and then entries of `x` only (second round, if any). -/
+theorem round_lone_log (s : Fw σ) (x : Nat) (h : s.signalPending = some (.allExcept x)) :
+    ∃ l2 l3, (afterFirst ρ s (some x)).log = l2 ++ s.log ∧ (signalRound ρ s).log = l3 ++ (l2 ++ s.log) ∧
+      (∀ e ∈ l2, ∃ j, j ≠ x ∧ Own j Gen.EV_Signal e) ∧ (∀ e ∈ l3, Own x Gen.EV_Signal e) := by
+  rw [C09.sr_round_lone ρ s x h]
+  unfold afterFirst
+  simp only []
+  obtain ⟨l2, e2, o2⟩ := fold_signal_own ρ (firstRound s.rt.length (some x)) ({ s with signalPending := none } : Fw σ)
+  have o2' : ∀ e ∈ l2, ∃ j, j ≠ x ∧ Own j Gen.EV_Signal e := by
+    intro e he
+    obtain ⟨j, hj, hO⟩ := o2 e he
+    exact ⟨j, fun hjx => C09.sr_excluded_not_visited s.rt.length x (hjx ▸ hj), hO⟩
+  generalize ((firstRound s.rt.length (some x)).foldl (fun s mi => (transition ρ FUEL mi .signal s).1)
+    ({ s with signalPending := none } : Fw σ)) = s2 at e2 ⊢
+  have e2' : s2.log = l2 ++ s.log := e2
+  cases hs2 : s2.signalPending with
+  | none => exact ⟨l2, [], e2', by simp [e2'], o2', by simp⟩
+  | some _ =>
+    simp only []
+    obtain ⟨_, l3, e3, o3⟩ := o_transition ρ x .signal ({ s2 with signalPending := none } : Fw σ)
+    exact ⟨l2, l3, e2', by rw [e3]; show l3 ++ s2.log = _; rw [e2'], o2', o3⟩
+
+/-! ## C09: the facts about the log of a call that make `checkCall` accept -/
+
+/-- machine `a` counts as a signaller for the monitor: the segment records a transition of `a` to the
+    signal pseudo-state on an event other than Signal, or `a` is carried over from the previous call -/
+def InK (pending : Option SignalTarget) (l : List LogEntry) (a : Nat) : Prop :=
+  (∃ ev, LogEntry.sampled a ev STATE_SIGNAL ∈ l ∧ ev ≠ Gen.EV_Signal) ∨ pending = some (.allExcept a)
+
+/-- machine `a` answered a delivered Signal by signalling -/
+def Resp (l : List LogEntry) (a : Nat) : Prop := LogEntry.sampled a Gen.EV_Signal STATE_SIGNAL ∈ l
+
+/-- what the model guarantees about the log segment `l` (newest first) of a call: nobody signalled
+    and nobody received a Signal; or several machines signalled and every live machine received
+    exactly one; or only `x` signalled, every other live machine received exactly one and `x` one
+    iff it was answered (`ans`), where an answer shows in the log as a signaller or responder
+    other than `x` -/
+structure CallFacts (n : Nat) (pending : Option SignalTarget) (l : List LogEntry) (live : Nat → Bool) : Prop where
+  le : ∀ i, deliveries l i ≤ 1
+  sc : (pending = none ∧ (∀ a ev, LogEntry.sampled a ev STATE_SIGNAL ∉ l) ∧ ∀ i, deliveries l i = 0) ∨
+       ((pending = some .all ∨ ∃ a b, a ≠ b ∧ InK pending l a ∧ InK pending l b) ∧
+          ∀ i, i < n → live i = true → deliveries l i = 1) ∨
+       (∃ (x : Nat) (ans : Prop), pending ≠ some .all ∧ InK pending l x ∧
+          (∀ i, i < n → i ≠ x → live i = true → deliveries l i = 1) ∧
+          (ans → live x = true → deliveries l x = 1) ∧ (¬ ans → deliveries l x = 0) ∧
+          (∀ j, j ≠ x → InK pending l j → ans) ∧ (∀ j, j ≠ x → Resp l j → ans) ∧
+          (ans → ∃ j, j ≠ x ∧ (InK pending l j ∨ Resp l j)))
+
+theorem mem_signallers (L : List LogEntry) (a : Nat) :
+    a ∈ signallers L ↔ ∃ ev, LogEntry.sampled a ev STATE_SIGNAL ∈ L ∧ ev ≠ Gen.EV_Signal := by
+  unfold signallers
+  rw [mem_dedup, List.mem_filterMap]
+  constructor
+  · rintro ⟨e, he, hf⟩
+    cases e with
+    | sampled mi ev next =>
+      simp only at hf
+      split at hf
+      · next hc =>
+        simp only [Bool.and_eq_true, beq_iff_eq, bne_iff_ne, ne_eq] at hc
+        have := Option.some.inj hf
+        subst this
+        exact ⟨ev, by rw [← hc.1]; exact he, hc.2⟩
+      · cases hf
+    | _ => simp at hf
+  · rintro ⟨ev, hmem, hne⟩
+    exact ⟨_, hmem, by simp [hne]⟩
+
+theorem mem_responders (L : List LogEntry) (a : Nat) :
+    a ∈ responders L ↔ LogEntry.sampled a Gen.EV_Signal STATE_SIGNAL ∈ L := by
+  unfold responders
+  rw [mem_dedup, List.mem_filterMap]
+  constructor
+  · rintro ⟨e, he, hf⟩
+    cases e with
+    | sampled mi ev next =>
+      simp only at hf
+      split at hf
+      · next hc =>
+        simp only [Bool.and_eq_true, beq_iff_eq] at hc
+        have := Option.some.inj hf
+        subst this
+        rw [← hc.1, ← hc.2]; exact he
+      · cases hf
+    | _ => simp at hf
+  · intro hmem
+    exact ⟨_, hmem, by simp⟩
+
+theorem mem_kOf (pending : Option SignalTarget) (L : List LogEntry) (a : Nat) :
+    a ∈ kOf pending L ↔ a ∈ signallers L ∨ pending = some (.allExcept a) := by
+  cases pending with
+  | none => simp [kOf]
+  | some p =>
+    cases p with
+    | all => simp [kOf]
+    | allExcept x =>
+      simp only [kOf, mem_dedup, List.mem_append, List.mem_singleton, Option.some.injEq, SignalTarget.allExcept.injEq]
+      constructor
+      · rintro (h | h)
+        · exact Or.inl h
+        · exact Or.inr h.symm
+      · rintro (h | h)
+        · exact Or.inl h
+        · exact Or.inr h.symm
+
+theorem kOf_nodup (pending : Option SignalTarget) (L : List LogEntry) : (kOf pending L).Nodup := by
+  cases pending with
+  | none => exact dedup_nodup _
+  | some p =>
+    cases p with
+    | all => exact dedup_nodup _
+    | allExcept x => exact dedup_nodup _
+
+theorem checkCall_of_facts (n : Nat) (pending : Option SignalTarget) (l : List LogEntry) (live : Nat → Bool)
+    (h : CallFacts n pending l live) : checkCall n pending l.reverse live = none := by
+  rw [checkCall_eq]
+  have hdel : ∀ i, deliveries l.reverse i = deliveries l i := fun i => by
+    unfold deliveries; rw [List.countP_reverse]
+  have hK : ∀ a, a ∈ kOf pending l.reverse ↔ InK pending l a := by
+    intro a
+    rw [mem_kOf, mem_signallers]
+    simp only [InK, List.mem_reverse]
+  have hR : ∀ a, a ∈ responders l.reverse ↔ Resp l a := by
+    intro a
+    rw [mem_responders]
+    simp only [Resp, List.mem_reverse]
+  have hnd := kOf_nodup pending l.reverse
+  generalize kOf pending l.reverse = K at hK hnd ⊢
+  generalize responders l.reverse = RS at hR ⊢
+  have hmanyT : (pending == some .all || decide (K.length ≥ 2)) = true →
+      pending = some .all ∨ ∃ a b, a ≠ b ∧ InK pending l a ∧ InK pending l b := by
+    intro hm
+    rw [Bool.or_eq_true] at hm
+    rcases hm with hm | hm
+    · exact Or.inl (by simpa using hm)
+    · obtain ⟨a, ha, b, hb, hab⟩ := two_distinct K hnd (by simpa using hm)
+      exact Or.inr ⟨a, b, hab, (hK a).1 ha, (hK b).1 hb⟩
+  have hmanyF : (pending == some .all || decide (K.length ≥ 2)) = false → pending ≠ some .all ∧ K.length < 2 := by
+    intro hm
+    rw [Bool.or_eq_false_iff] at hm
+    exact ⟨by simpa using hm.1, by simpa using hm.2⟩
+  refine checkBody_none n _ K RS l.reverse live (fun i => by rw [hdel]; exact h.le i) ?_ ?_ ?_
+  · intro hm i hi hl
+    rw [hdel]
+    rcases h.sc with ⟨hp, hno, _⟩ | ⟨_, hd⟩ | ⟨x, ans, hp, _, h1, h2, _, h4, _, _⟩
+    · exfalso
+      have hnoK : ∀ a, ¬ InK pending l a := by
+        rintro a (⟨ev, hmem, _⟩ | hpa)
+        · exact hno a ev hmem
+        · rw [hp] at hpa; cases hpa
+      rcases hmanyT hm with hpa | ⟨a, _, _, ha, _⟩
+      · rw [hp] at hpa; cases hpa
+      · exact hnoK a ha
+    · exact hd i hi hl
+    · rcases hmanyT hm with hpa | ⟨a, b, hab, ha, hb⟩
+      · exact absurd hpa hp
+      · have hans : ans := by
+          by_cases hax : a = x
+          · exact h4 b (fun hbx => hab (hax.trans hbx.symm)) hb
+          · exact h4 a hax ha
+        by_cases hix : i = x
+        · subst hix; exact h2 hans hl
+        · exact h1 i hi hix hl
+  · intro hm hk0 i hi
+    rw [hdel]
+    obtain ⟨hpne, _⟩ := hmanyF hm
+    rcases h.sc with ⟨_, _, hz⟩ | ⟨hd, _⟩ | ⟨x, ans, _, hx, _⟩
+    · exact hz i
+    · exfalso
+      rcases hd with hpa | ⟨a, _, _, ha, _⟩
+      · exact hpne hpa
+      · have := (hK a).2 ha
+        rw [hk0] at this; cases this
+    · exfalso
+      have := (hK x).2 hx
+      rw [hk0] at this; cases this
+  · intro x' r hm hk1
+    obtain ⟨hpne, hlen⟩ := hmanyF hm
+    have hr : r = [] := by
+      rw [hk1] at hlen
+      cases r with
+      | nil => rfl
+      | cons _ _ => simp at hlen; omega
+    subst hr
+    have hKx : ∀ a, InK pending l a → a = x' := by
+      intro a ha
+      have := (hK a).2 ha
+      rw [hk1] at this
+      simpa using this
+    rcases h.sc with ⟨hp, hno, _⟩ | ⟨hd, _⟩ | ⟨x, ans, _, hx, h1, h2, h3, _, h5, h6⟩
+    · exfalso
+      have hx' : InK pending l x' := (hK x').1 (by rw [hk1]; simp)
+      rcases hx' with ⟨ev, hmem, _⟩ | hpa
+      · exact hno x' ev hmem
+      · rw [hp] at hpa; cases hpa
+    · exfalso
+      rcases hd with hpa | ⟨a, b, hab, ha, hb⟩
+      · exact hpne hpa
+      · exact hab ((hKx a ha).trans (hKx b hb).symm)
+    · have hxx : x = x' := hKx x hx
+      subst hxx
+      refine ⟨fun i hi hix hl => by rw [hdel]; exact h1 i hi hix hl, fun hex hl => ?_, fun hnex => ?_⟩
+      · rw [hdel]
+        obtain ⟨y, hy, hyx⟩ := hex
+        exact h2 (h5 y hyx ((hR y).1 hy)) hl
+      · rw [hdel]
+        refine h3 (fun hans => ?_)
+        obtain ⟨j, hjx, hj⟩ := h6 hans
+        rcases hj with hj | hj
+        · exact hjx (hKx j hj)
+        · exact hnex ⟨j, (hR j).2 hj, hjx⟩
+
+/-! ## C09: every call of the model has these facts -/
+
+theorem mem_signalsIn (l : List LogEntry) (a : Nat) :
+    a ∈ signalsIn l ↔ ∃ ev, LogEntry.sampled a ev STATE_SIGNAL ∈ l := by
+  unfold signalsIn
+  rw [List.mem_filterMap]
+  constructor
+  · rintro ⟨e, he, hf⟩
+    rw [List.mem_reverse] at he
+    cases e with
+    | sampled mi ev next =>
+      simp only [sigEntry] at hf
+      split at hf
+      · next hc =>
+        have := Option.some.inj hf
+        subst this
+        exact ⟨ev, by rw [← hc]; exact he⟩
+      · cases hf
+    | _ => simp [sigEntry] at hf
+  · rintro ⟨ev, hmem⟩
+    exact ⟨_, List.mem_reverse.2 hmem, by simp [sigEntry]⟩
+
+theorem deliveries_zero_of_absent (l : List LogEntry) (x n : Nat)
+    (hD : ∀ m ev st, LogEntry.trans m ev st ∈ l → m < n) (hx : n ≤ x) : deliveries l x = 0 := by
+  unfold deliveries
+  rw [List.countP_eq_zero]
+  intro e he
+  cases e with
+  | trans m ev st =>
+    have := hD m ev st he
+    have hne : (m == x) = false := by
+      have : m ≠ x := by omega
+      simpa using this
+    simp [hne]
+  | _ => simp
+
+theorem notEnded_lt {s : Fw σ} {j : Nat} (h : notEnded s j = true) : j < s.rt.length := by
+  unfold notEnded at h
+  rcases Nat.lt_or_ge j s.rt.length with h' | h'
+  · exact h'
+  · rw [List.getElem?_eq_none h'] at h; cases h
+
+/-- **The log segment of every call of the model has the facts `checkCall` needs.** No validity
+    or no-fault hypothesis; `s.signalPending` is whatever the previous call left over. -/
+theorem call_facts (es : List TEvent) (t : Int) (s : Fw σ) (hlen : s.rt.length = s.machines.length)
+    (l : List LogEntry) (hl : (triggerEvents ρ es t s).log = l ++ s.log) :
+    CallFacts s.rt.length s.signalPending l (fun j => notEnded (triggerEvents ρ es t s) j) := by
+  obtain ⟨l1, hE, hP⟩ := C09.slot_tracks_log ρ es t s
+  have hA := events_noSignalEv ρ es t s l1 hE
+  have hD := call_trans_lt ρ es t s l hl
+  have hrun : Run (eventsDone ρ es t s) (signalRound ρ (eventsDone ρ es t s)) :=
+    (walkRun ρ).toWalkCore.signalRound _
+  obtain ⟨lr, hlr⟩ := hrun.logExt
+  rw [← C09.triggerEvents_eq] at hlr
+  have hsplit : l = lr ++ l1 := by
+    apply List.append_cancel_right (bs := s.log)
+    rw [← hl, hlr, hE, List.append_assoc]
+  have hle : ∀ i, deliveries l i ≤ 1 := by
+    intro i
+    have h1 := sig_triggerEvents ρ i es t s
+    unfold sigOf at h1
+    rw [hl, wsum_append] at h1
+    have h2 := wsum_le_of_le (μLive_le i) l
+    rw [C09.wsum_live_eq_deliveries] at h2
+    omega
+  have hsig1 : ∀ a, a ∈ signalsIn l1 → ∃ ev, LogEntry.sampled a ev STATE_SIGNAL ∈ l ∧ ev ≠ Gen.EV_Signal := by
+    intro a ha
+    obtain ⟨ev, hmem⟩ := (mem_signalsIn l1 a).1 ha
+    refine ⟨ev, by rw [hsplit]; exact List.mem_append_right _ hmem, fun hev => ?_⟩
+    rw [hev] at hmem
+    exact hA a _ hmem
+  refine ⟨hle, ?_⟩
+  cases hPE : (eventsDone ρ es t s).signalPending with
+  | none =>
+    left
+    rw [hPE] at hP
+    have hsome := C09.sigStep_fold_isSome (signalsIn l1) s.signalPending
+    rw [← hP] at hsome
+    have hp0 : s.signalPending = none := by
+      cases h : s.signalPending with
+      | none => rfl
+      | some _ => rw [h] at hsome; simp at hsome
+    have hids : signalsIn l1 = [] := by
+      cases h : signalsIn l1 with
+      | nil => rfl
+      | cons _ _ => rw [h] at hsome; simp at hsome
+    have hTE : triggerEvents ρ es t s = eventsDone ρ es t s := by
+      rw [C09.triggerEvents_eq, C09.sr_round_none ρ _ hPE]
+    have hll : l = l1 := by
+      apply List.append_cancel_right (bs := s.log)
+      rw [← hl, hTE, hE]
+    refine ⟨hp0, fun a ev hmem => ?_, fun i => ?_⟩
+    · rw [hll] at hmem
+      have : a ∈ signalsIn l1 := (mem_signalsIn l1 a).2 ⟨ev, hmem⟩
+      rw [hids] at this; cases this
+    · have h := C09.live_eventsDone ρ es t s i
+      unfold liveSigOf at h
+      rw [hE, wsum_append, C09.wsum_live_eq_deliveries] at h
+      rw [hll]; omega
+  | some p =>
+    cases p with
+    | all =>
+      right; left
+      refine ⟨?_, fun i hi hlive => ?_⟩
+      · rw [hPE] at hP
+        cases hp0 : s.signalPending with
+        | none =>
+          right
+          rw [hp0] at hP
+          obtain ⟨a, ha, b, hb, hab⟩ := (C09.lone_or_many (signalsIn l1)).2.2.1 hP.symm
+          exact ⟨a, b, hab, Or.inl (hsig1 a ha), Or.inl (hsig1 b hb)⟩
+        | some q =>
+          cases q with
+          | all => exact Or.inl rfl
+          | allExcept y =>
+            right
+            rw [hp0, C09.sr_pending_spec] at hP
+            by_cases hall : (signalsIn l1).all (· == y) = true
+            · rw [if_pos hall] at hP; cases hP
+            · have hex : ∃ a ∈ signalsIn l1, a ≠ y := by
+                by_contra hno
+                apply hall
+                rw [List.all_eq_true]
+                intro a ha
+                have : a = y := by
+                  by_contra hne
+                  exact hno ⟨a, ha, hne⟩
+                simpa using this
+              obtain ⟨a, ha, hay⟩ := hex
+              exact ⟨a, y, hay, Or.inl (hsig1 a ha), Or.inr rfl⟩
+      · obtain ⟨l', e', _, d2, _⟩ := C09.call_deliveries ρ es t s i ⟨hi, hlen ▸ hi⟩ hlive
+        have : l' = l := List.append_cancel_right (e'.symm.trans hl)
+        rw [← this]; exact d2 hPE
+    | allExcept x =>
+      right; right
+      rw [hPE] at hP
+      have hpa : s.signalPending ≠ some .all ∧ (∀ a ∈ signalsIn l1, a = x) ∧
+          (∀ j, s.signalPending = some (.allExcept j) → j = x) ∧ InK s.signalPending l x := by
+        cases hp0 : s.signalPending with
+        | none =>
+          rw [hp0] at hP
+          obtain ⟨hne, hall⟩ := ((C09.lone_or_many (signalsIn l1)).2.1 x).1 hP.symm
+          refine ⟨by simp, hall, (fun j hj => by cases hj), ?_⟩
+          obtain ⟨a, ha⟩ := List.exists_mem_of_ne_nil _ hne
+          have hax := hall a ha
+          rw [hax] at ha
+          exact Or.inl (hsig1 x ha)
+        | some q =>
+          cases q with
+          | all => rw [hp0, C09.sigStep_all] at hP; cases hP
+          | allExcept y =>
+            rw [hp0, C09.sr_pending_spec] at hP
+            by_cases hall : (signalsIn l1).all (· == y) = true
+            · rw [if_pos hall] at hP
+              have hyx : y = x := by
+                injection hP with h
+                injection h with h
+                exact h.symm
+              subst hyx
+              refine ⟨by simp, fun a ha => ?_, fun j hj => ?_, Or.inr rfl⟩
+              · have := List.all_eq_true.mp hall a ha
+                simpa using this
+              · injection hj with h
+                injection h with h
+                exact h.symm
+            · rw [if_neg hall] at hP; cases hP
+      obtain ⟨hpne, hids, hpx, hxK⟩ := hpa
+      obtain ⟨l2, l3, eF, eT, o2, o3⟩ := round_lone_log ρ (eventsDone ρ es t s) x hPE
+      rw [← C09.triggerEvents_eq] at eT
+      have hl3 : l = l3 ++ (l2 ++ l1) := by
+        apply List.append_cancel_right (bs := s.log)
+        rw [← hl, eT, hE]
+        simp [List.append_assoc]
+      obtain ⟨l2', eF', hans⟩ := C09.afterFirst_answered ρ (eventsDone ρ es t s) (some x)
+      have hl2 : l2' = l2 := List.append_cancel_right (eF'.symm.trans eF)
+      rw [hl2] at hans
+      have hmemcases : ∀ e, e ∈ l → e ∈ l3 ∨ e ∈ l2 ∨ e ∈ l1 := by
+        intro e he
+        rw [hl3] at he
+        simpa [List.mem_append] using he
+      have hin2 : ∀ a ev, LogEntry.sampled a ev STATE_SIGNAL ∈ l2 →
+          (afterFirst ρ (eventsDone ρ es t s) (some x)).signalPending.isSome = true := by
+        intro a ev hmem
+        apply hans.2
+        intro hnil
+        have : a ∈ signalsIn l2 := (mem_signalsIn l2 a).2 ⟨ev, hmem⟩
+        rw [hnil] at this; cases this
+      have hrtlen : (triggerEvents ρ es t s).rt.length = s.rt.length := run_rtLen (triggerEvents_run ρ es t s)
+      refine ⟨x, (afterFirst ρ (eventsDone ρ es t s) (some x)).signalPending.isSome = true, hpne, hxK,
+        ?_, ?_, ?_, ?_, ?_, ?_⟩
+      · intro i hi hix hlive
+        obtain ⟨l', e', _, _, d3⟩ := C09.call_deliveries ρ es t s i ⟨hi, hlen ▸ hi⟩ hlive
+        have : l' = l := List.append_cancel_right (e'.symm.trans hl)
+        rw [← this]; exact (d3 x hPE).1 hix
+      · intro hans' hlive
+        have hi : x < s.rt.length := by rw [← hrtlen]; exact notEnded_lt hlive
+        obtain ⟨l', e', _, _, d3⟩ := C09.call_deliveries ρ es t s x ⟨hi, hlen ▸ hi⟩ hlive
+        have : l' = l := List.append_cancel_right (e'.symm.trans hl)
+        rw [← this, (d3 x hPE).2 rfl, if_pos hans']
+      · intro hnans
+        by_cases hi : x < s.rt.length
+        · have h := ((C09.call_delivers_live ρ es t s x ⟨hi, hlen ▸ hi⟩).2.2 x hPE).2 rfl
+          have hc : ¬ ((afterFirst ρ (eventsDone ρ es t s) (some x)).signalPending.isSome = true ∧
+              notEnded (eventsDone ρ es t s) x = true) := fun hc => hnans hc.1
+          rw [if_neg hc] at h
+          unfold liveSigOf at h
+          rw [hl, wsum_append, C09.wsum_live_eq_deliveries] at h
+          omega
+        · exact deliveries_zero_of_absent l x s.rt.length hD (by omega)
+      · intro j hjx hj
+        rcases hj with ⟨ev, hmem, hev⟩ | hpj
+        · rcases hmemcases _ hmem with h | h | h
+          · exact absurd (o3 _ h).1 hjx
+          · exact hin2 j ev h
+          · exact absurd (hids j ((mem_signalsIn l1 j).2 ⟨ev, h⟩)) hjx
+        · exact absurd (hpx j hpj) hjx
+      · intro j hjx hj
+        rcases hmemcases _ hj with h | h | h
+        · exact absurd (o3 _ h).1 hjx
+        · exact hin2 j _ h
+        · exact absurd h (hA j _)
+      · intro hans'
+        have hne := hans.1 hans'
+        obtain ⟨a, ha⟩ := List.exists_mem_of_ne_nil _ hne
+        obtain ⟨ev, hmem⟩ := (mem_signalsIn l2 a).1 ha
+        obtain ⟨j, hjx, hO⟩ := o2 _ hmem
+        have haj : a = j := hO.1
+        have hml : LogEntry.sampled a ev STATE_SIGNAL ∈ l := by rw [hl3]; simp [hmem]
+        refine ⟨a, by rw [haj]; exact hjx, ?_⟩
+        by_cases hev : ev = Gen.EV_Signal
+        · right; rw [hev] at hml; exact hml
+        · left; exact Or.inl ⟨ev, hml, hev⟩
+
+/-! ### `C09.monitor` on the model's trace -/
+
+theorem go09_nil (n i : Nat) (pending : Option SignalTarget) : C09.monitor.go n i pending [] = none := by
+  rw [C09.monitor.go]
+
+theorem go09_bad (n i : Nat) (pending : Option SignalTarget) (c : CallRec) (cs : List CallRec) (h : c.res ≠ .ok) :
+    C09.monitor.go n i pending (c :: cs) = none := by
+  rw [C09.monitor.go]
+  have : (c.res != Res.ok) = true := by simpa using h
+  simp [this]
+
+theorem go09_ok (n i : Nat) (pending : Option SignalTarget) (c : CallRec) (cs : List CallRec)
+    (h : checkCall n pending c.log
+      (fun j => match c.snap.rts[j]? with | some r => r.state != STATE_END | none => false) = none) :
+    C09.monitor.go n i pending (c :: cs) =
+      if c.res != .ok then none else C09.monitor.go n (i + 1) c.snap.signalPending cs := by
+  rw [C09.monitor.go]
+  split
+  · rfl
+  · simp only []
+    split
+    · next msg heq => exact absurd (heq.symm.trans h) (by simp)
+    · rfl
+
+theorem live_snap (s : Fw σ) :
+    (fun j => match s.snap.rts[j]? with | some r => r.state != STATE_END | none => false) = fun j => notEnded s j := by
+  funext j
+  unfold notEnded Fw.snap
+  simp only [List.getElem?_map]
+  cases s.rt[j]? <;> rfl
+
+theorem go09_model (n : Nat) (h : List Call) : ∀ (i : Nat) (s : Fw σ), s.rt.length = n → s.machines.length = n →
+    C09.monitor.go n i s.signalPending (LL.callRecs ρ s h) = none := by
+  induction h with
+  | nil => intro i s _ _; exact go09_nil _ _ _
+  | cons c h ih =>
+    intro i s hn hm
+    rw [LL.callRecs]
+    by_cases hok : (triggerEvents ρ c.1 c.2 (LL.resetLog s)).fault = none
+    · have hres : (LL.callRec ρ s c).res = .ok := (LL.resOf_ok _).2 hok
+      have hrun := triggerEvents_run ρ c.1 c.2 (LL.resetLog s)
+      rw [go09_ok]
+      · simp only [hres, bne_self_eq_false, Bool.false_eq_true, if_false]
+        exact ih (i + 1) _ ((run_rtLen hrun).trans hn) ((congrArg List.length (LL.machines_run hrun)).trans hm)
+      · have hf := call_facts ρ c.1 c.2 (LL.resetLog s) (hn.trans hm.symm)
+          (triggerEvents ρ c.1 c.2 (LL.resetLog s)).log (List.append_nil _).symm
+        have := checkCall_of_facts _ _ _ _ hf
+        show checkCall n s.signalPending (triggerEvents ρ c.1 c.2 (LL.resetLog s)).log.reverse
+          (fun j => match (triggerEvents ρ c.1 c.2 (LL.resetLog s)).snap.rts[j]? with
+            | some r => r.state != STATE_END | none => false) = none
+        rw [live_snap, ← hn]
+        exact this
+    · exact go09_bad _ _ _ _ _ (fun hres => hok ((LL.resOf_ok _).1 hres))
+
+/-- **`C09.monitor` accepts the model's own trace of every history.** -/
+theorem monitor09_model (ms : List Machine) (fp fb : F64) (t0 : Int) (rng : σ) (h : List Call) :
+    C09.monitor (LL.modelTrace ρ ms fp fb t0 rng h) = none := by
+  unfold C09.monitor
+  have hm : (Fw.init ρ ms fp fb t0 rng).machines = ms := LL.machines_run (init_run ρ ms fp fb t0 rng)
+  have hI := Inv04.init ρ ms fp fb t0 rng
+  exact go09_model ρ ms.length h 1 (Fw.init ρ ms fp fb t0 rng) (by rw [hI.rtLen, hm]) (by rw [hm])
+
 end MB
 end Mb
